@@ -458,7 +458,7 @@ namespace xv
             s.place_comp.push_back(alph[(size_t)k]);
         }
         // subject tuples: full product for one operand, 8^2 for two, 5^3 for three
-        const size_t cap = sig.nin == 1 ? 64 : sig.nin == 2 ? 8 : 5;
+        const size_t cap = T.thorough ? (sig.nin == 1 ? 64 : sig.nin == 2 ? 13 : 8) : (sig.nin == 1 ? 64 : sig.nin == 2 ? 8 : 5);
         std::vector<size_t> idx((size_t)sig.nin, 0);
         for (;;)
         {
